@@ -1,5 +1,6 @@
 (* Properties/C09.v — ONLY property theorems of C09 and their Print Assumptions. *)
 From Precond Require Import Base.QMat Base.PsdCheck C09.Model C09.Proofs C09.Bessel C09.Check C09.CheckSound.
+From Precond Require C09.Budget.
 Open Scope Q_scope.
 
 (* One FD step preserves  0 <= t  and  B <= C <= B + t*|x|^2  for EVERY answer of the SVD oracle
@@ -87,3 +88,25 @@ Theorem c09_chk_bracket_sound_form : forall tau n C V l t, chk_bracket tau n C V
     qf C x <= sketch_form V l x + (t + tau) * dot x x.
 Proof. exact chk_bracket_sound_form. Qed.
 Print Assumptions c09_chk_bracket_sound_form.
+
+(* Escaped-mass budget (trace level, C09/Budget.v): a deflation by r lowers k+1 eigenvalues by r, so
+   (k+1) t <= tr C - tr S is an invariant of every history of steps  C' = b (C + R) + G G^T,
+   t' = b t + r;  a history whose sketch is exact has no escaped mass.  This is the invariant
+   harness/c09 evaluates on optimizer states (chk_states code 8). *)
+Theorem c09_deflation_lowers_trace : forall (top rest : list Q) (r : Q),
+  Forall (fun x => 0 <= x) rest ->
+  Budget.qsum (map (fun x => x - r) top) + inject_Z (Z.of_nat (S (length top))) * r
+  <= Budget.qsum (top ++ r :: rest).
+Proof. exact Budget.deflation_lowers_trace. Qed.
+Print Assumptions c09_deflation_lowers_trace.
+
+Theorem c09_budget_history : forall k1 xs,
+  Budget.all_ok k1 {| Budget.trC := 0; Budget.trS := 0; Budget.esc := 0 |} xs ->
+  Budget.budget k1 (Budget.run {| Budget.trC := 0; Budget.trS := 0; Budget.esc := 0 |} xs).
+Proof. exact Budget.budget_history. Qed.
+Print Assumptions c09_budget_history.
+
+Theorem c09_exact_sketch_no_escaped_mass : forall k1 s,
+  0 < k1 -> Budget.budget k1 s -> Budget.trS s == Budget.trC s -> 0 <= Budget.esc s -> Budget.esc s == 0.
+Proof. exact Budget.exact_sketch_no_escaped_mass. Qed.
+Print Assumptions c09_exact_sketch_no_escaped_mass.
